@@ -3,6 +3,7 @@ package server
 import (
 	"bytes"
 	"context"
+	"encoding/binary"
 	"errors"
 	"github.com/aldas/go-modbus-client/packet"
 )
@@ -41,27 +42,40 @@ func (m *ModbusTCPAssembler) handleBuffered(ctx context.Context) (response []byt
 	if err != nil {
 		// packet with unsupported function code (n > 0) or bytes that are not Modbus TCP (n == 0). These bytes must be
 		// consumed or they would be classified (and answered) again with every following read.
+		header := append([]byte(nil), m.received.Bytes()[0:8]...)
 		if n > 0 {
 			m.received.Next(n)
 		} else {
 			m.received.Reset()
 		}
-		return err.(*packet.ErrorParseTCP).Bytes(), true
+		return errorResponseTo(header, err.(*packet.ErrorParseTCP)), true
 	}
 
-	p, err := packet.ParseTCPRequest(m.received.Next(n))
+	request := m.received.Next(n)
+	p, err := packet.ParseTCPRequest(request)
 	if err != nil {
-		return err.(*packet.ErrorParseTCP).Bytes(), true
+		return errorResponseTo(request, err.(*packet.ErrorParseTCP)), true
 	}
 
 	resp, err := m.Handler.Handle(ctx, p)
 	if err != nil {
 		var target *packet.ErrorParseTCP
 		if errors.As(err, &target) {
-			return target.Bytes(), true
+			return errorResponseTo(request, target), true
 		}
-		return packet.NewErrorParseTCP(packet.ErrUnknown, err.Error()).Bytes(), true
+		return errorResponseTo(request, packet.NewErrorParseTCP(packet.ErrUnknown, err.Error())), true
 	}
 
 	return resp.Bytes(), true
+}
+
+// errorResponseTo returns bytes of error response that is addressed to the given request: client matches responses to
+// its requests by transaction ID and unit ID and expects to see function code of its request in the error response.
+// Errors created by handlers (and some created by parsers) do not know these values.
+func errorResponseTo(request []byte, err *packet.ErrorParseTCP) []byte {
+	response := err.Packet
+	response.TransactionID = binary.BigEndian.Uint16(request[0:2])
+	response.UnitID = request[6]
+	response.Function = request[7]
+	return response.Bytes()
 }
